@@ -43,14 +43,24 @@ impl Prop for C02 {
      distinct by hash of the case JSON".into()
   }
   fn legs(&self, _tier: Tier) -> Vec<Leg<TreeCase>> {
-    vec![Leg {
-      name: "ascii trees",
-      source: Cases::Generated(
-        Box::new(|| tree(GenCfg::positional()).prop_map(|spec| TreeCase { spec }).boxed()),
-        1_000_000,
-        12_000_000,
-      ),
-    }]
+    vec![
+      Leg {
+        name: "ascii trees",
+        source: Cases::Generated(
+          Box::new(|| tree(GenCfg::positional()).prop_map(|spec| TreeCase { spec }).boxed()),
+          1_000_000,
+          12_000_000,
+        ),
+      },
+      Leg {
+        name: "larger ascii trees (depth<=4, <=6 children, <=30 tokens)",
+        source: Cases::Generated(
+          Box::new(|| tree(GenCfg::positional_large()).prop_map(|spec| TreeCase { spec }).boxed()),
+          60000,
+          800000,
+        ),
+      },
+    ]
   }
   fn check(&self, case: &TreeCase) -> CheckResult {
     let spec = &case.spec;
